@@ -105,9 +105,16 @@ def process_zone(tz, suffix):
             time.tzset()
 
 
+ID_STYLE = ["short"]
+
+
 def run_case(kind, n, incs, exps, zsk, pol_kw, now=NOW, shuffle=False, desc=None):
     global accepts
-    ids = [f"b{j:02d}-{R.randrange(10**6)}" for j in range(n)]
+    # bundle ids are opaque: unique, but free to share a long common prefix (operators name them by quarter) or to be UUIDs
+    style = ID_STYLE[0] if ID_STYLE[0] != "mixed" else R.choice(["short", "named", "uuid", "suffix"])
+    tag_ = R.randrange(10**6)
+    ids = [{"short": f"b{j:02d}-{tag_}", "named": f"2027Q1-bundle-{tag_}-{j}", "uuid": f"{R.randrange(16**8):08x}-{R.randrange(16**4):04x}-4000-8000-{j:012x}",
+            "suffix": f"{'x' * 40}{j}"}[style] for j in range(n)]
     bundles = [{"id": ids[j], "inc": incs[j], "exp": exps[j], "keys": [DUMMY], "sigs": [DUMMY_SIG]} for j in range(n)]
     order = list(range(n))
     if shuffle:
@@ -178,6 +185,7 @@ DELTAS = [D(days=-1), D(seconds=-1), D(0), D(seconds=1), D(days=1)]
 patch_dt = vp.datetime
 vp.datetime = PinnedDT
 try:
+    ID_STYLE[0] = "mixed"
     # A. lattice around every bound of every rule, every position, n = 1..9
     for n in range(1, 10):
         for eq in (False, True):
